@@ -55,6 +55,14 @@ contains
     do i = 1, size(s)
       call s(i)%grow(f)
     end do
+    ! constructs that are open while a truncated copy of this file ends: their names are those of
+    ! procedures referenced in the files read later
+    associate (volume => f * 2.0, helper => s(1)%w, scale_all => f)
+      block
+        real :: area
+        area = volume * helper + scale_all
+      end block
+    end associate
   end subroutine scale_all
 end module shapes
 """
